@@ -2051,6 +2051,10 @@ impl Connection {
     }
 
     fn reset_cid_retirement(&mut self) {
+        if self.state.is_closed() {
+            // `close_common` already stopped the timer, and closed connections issue no more CIDs
+            return;
+        }
         if let Some(t) = self.local_cid_state.next_timeout() {
             self.timers.set(Timer::PushNewCid, t);
         }
@@ -2356,6 +2360,13 @@ impl Connection {
             return;
         }
 
+        if matches!(self.state, State::Draining | State::Drained) {
+            // The connection is over and the application knows why. Nothing that arrives now,
+            // be it a stateless reset or an authentic but illegal packet, may change that.
+            trace!("discarding packet received while draining");
+            return;
+        }
+
         let was_closed = self.state.is_closed();
         let was_drained = self.state.is_drained();
 
@@ -2436,6 +2447,16 @@ impl Connection {
                     self.process_decrypted_packet(now, remote, number, packet)
                 }
             }
+        };
+
+        let result = match result {
+            // We're already closing, so the state and the reason are settled. Only a stateless
+            // reset still matters: the peer is gone, so there's no point in lingering.
+            Err(e) if was_closed && e != ConnectionError::Reset => {
+                debug!("ignoring error on closed connection: {}", e);
+                Ok(())
+            }
+            x => x,
         };
 
         // State transitions for error cases
